@@ -16,10 +16,9 @@ from harness import execlib, serverlib, frontends
 
 ASSUMPTIONS = ['event loops and sockets are replaced by in-process fakes that hand each chunk to the real handler in order; '
                'socketserver / asyncio / the Twisted reactor themselves are not exercised',
-               'requests outside the modelled execute methods (diagnostics, identification, file records, FIFO) are executed by '
-               'the real code; the bytes they are answered with are not compared (they never touch the datastore)',
-               'listen-only mode (diagnostic sub-function 4, honoured by the Twisted protocols only) is switched off again before '
-               'every read: going deaf on request is the protocol, not a crash']
+               'the process-wide control block (counters, listen-only flag, identity) is reset before every case and is part of the '
+               'model state; a Twisted front-end that received a well-formed Force Listen Only Mode request goes deaf as the protocol '
+               'prescribes: its probes are then not required to be answered']
 RULE = ('front-end x framer x {single, multi-unit} x ignore_missing x broadcast x hostile histories of 1..14 chunks of kinds '
         '{random, valid-write, valid-other, trunc-pdu, long-pdu, bad-count, zero-pdu, len-field, bitflip, unknown-sub, split, '
         'inert}; then a probe on an idle second connection and on a fresh third one; non-trivial = at least one chunk is '
@@ -141,7 +140,7 @@ def check(ctx, rep, cases):
     ans = ctx.driver.query([serverlib.model_query(**c) for c in cases])
     for c, a in zip(cases, ans):
         real, before, per_step = serverlib.run_real_steps(c)
-        outs, escs, dumps, alive = real
+        outs, escs, dumps, alive, control = real
         case = {k: c[k] for k in ('frontend', 'framer', 'single', 'units', 'ignore_missing', 'broadcast', 'schedule', 'kinds', 'probe', 'inert_only')}
         case['kind'] = 'hostile'
         kinds = c['kinds']
@@ -152,9 +151,6 @@ def check(ctx, rep, cases):
                 rep.hist['kind:' + kk] += 1
             if '+' in k:
                 rep.hist['several-frames-in-one-read'] += 1
-        for call in a['calls'][:len(kinds)]:
-            if call.get('opaque'):
-                rep.hist['opaque-request-executed'] += 1
         rep.hist['A-closed-by-server' if not alive[len(kinds) - 1] else 'A-still-served'] += 1
         rep.sample({'frontend': c['frontend'], 'framer': c['framer'], 'kinds': kinds[:6], 'first_chunk': c['schedule'][0][1][:24],
                     'written_per_chunk': [sum(len(f) for f in o) for o in outs][:8]}, cap=6)
@@ -185,6 +181,9 @@ def check(ctx, rep, cases):
             if bad:
                 continue
         # (c)
+        if control['listen_only'] and c['frontend'] in ('twistedTcp', 'twistedUdp'):
+            rep.hist['listen-only-entered (Twisted goes deaf on request: probes not required)'] += 1
+            continue
         p = c['probe']
         for name, o in (('idle connection B', outs[-2]), ('fresh connection C', outs[-1])):
             frames = o
